@@ -39,7 +39,12 @@ LEVELS = {"block": BLOCK_PARAMS, "assem": ASSEM_PARAMS, "core": CORE_PARAMS, "co
 DERIVED_ON_LOAD = {"*": ("area", "volume"), "Core": ("maxAssemNum",),
                    "HexBlock": ("kgHM", "kgFis", "puFrac"), "CartesianBlock": ("kgHM", "kgFis", "puFrac")}
 
-OPS = ["freecoord", "parammany", "bookkeeping", "param", "param", "param", "temp", "ndens", "swap", "rotate", "discharge", "fullcore", "time", "unset"]
+# scalar parameters assigned as NumPy scalars of a narrow type (what array arithmetic hands to user code): the column takes
+# that dtype and, for parameters whose default is None, the unset entries of the other objects get the dtype's own marker
+TYPED_PARAMS = {"comp": [("pinNum", "ityped")], "block": [("THhotChannelFuelODT", "ftyped"), ("THhotChannel", "ityped"), ("topIndex", "ityped")],
+                "assem": [("THorificeZone", "ityped"), ("multiplicity", "ityped")], "core": [("cyclics", "ityped"), ("coupledIteration", "ityped")]}
+OPS = ["freecoord", "parammany", "bookkeeping", "param", "param", "param", "temp", "ndens", "swap", "rotate", "discharge", "fullcore", "time", "unset",
+       "typed"]
 EXCLUDE_KNOWN = {}
 
 
@@ -82,6 +87,9 @@ def strategy(tier):
                               rg.reactor_spec(max_rings=3, max_blocks=3), rg.rzt_spec()),
             "program": st.lists(_op(), min_size=0, max_size=8),
             "reload": st.booleans(),
+            # None: one snapshot after the whole program; k: a first snapshot after k operations, the rest of the program, then a
+            # second snapshot at the next time node through the SAME open database; both are loaded back afterwards
+            "split": st.one_of(st.none(), st.integers(0, 8)),
         }
     )
 
@@ -115,6 +123,11 @@ def _make_value(kind, val):
         return outv
     if kind == "i":
         return val["i"]
+    if kind == "ityped":
+        types = [int, np.int8, np.int16, np.int32, np.int64, np.uint8, np.uint16, np.uint32]
+        return types[val["i"] % len(types)](val["i"] // 8 % 100)
+    if kind == "ftyped":
+        return [float, np.float32, np.float64, np.float32][val["i"] % 4](val["f"] if abs(val["f"]) < 1e30 else 1.5)
     if kind == "s":
         return val["s"]
     if kind == "xs":
@@ -150,15 +163,13 @@ def apply_program(cs, r, program, out, counts, partial_nodefault=False):
 
     for op in program:
         kind = op["op"]
-        if kind == "param" or kind == "unset":
+        if kind in ("param", "unset", "typed"):
             objs = _objects(r, op["level"])
             if not objs:
                 continue
             o = objs[op["obj"] % len(objs)]
-            table = [(n, k) for n, k in LEVELS[op["level"]] if n in o.p.paramDefs.names] if hasattr(o.p.paramDefs, "names") else None
-            if table is None:
-                names = {pd.name for pd in o.p.paramDefs}
-                table = [(n, k) for n, k in LEVELS[op["level"]] if n in names]
+            names = {pd.name for pd in o.p.paramDefs}
+            table = [(n, k) for n, k in (TYPED_PARAMS if kind == "typed" else LEVELS)[op["level"]] if n in names]
             if not table:
                 continue
             name, vk = table[op["pidx"] % len(table)]
@@ -180,7 +191,7 @@ def apply_program(cs, r, program, out, counts, partial_nodefault=False):
                         other.p[name] = value
                 counts["nodefault-completed"] += 1
             o.p[name] = value
-            counts["param:" + op["level"]] += 1
+            counts[("typed:" + type(value).__name__) if kind == "typed" else ("param:" + op["level"])] += 1
         elif kind == "bookkeeping":
             # values the loader must not re-derive: move counters of an assembly, the core's stored axial meshes
             assems = list(r.core)
@@ -354,34 +365,38 @@ def execute(case):
     text = rg.render(spec)
     cs, bp, r = rg.build(spec, text=text)
     counts = collections.Counter()
-    apply_program(cs, r, case["program"], out, counts)
-    kinds = {k.split(":")[0] for k in counts}
-    out.nontrivial = len(kinds) >= 2 or any(d["pinGrid"] for d in spec["designs"]) or spec["geom"] == "thetarz"
-    out.label("geom:" + spec["geom"], "sym:" + spec["symmetry"].split()[0], *["op:" + k for k in sorted(counts)])
-    if any(d["pinGrid"] for d in spec["designs"]):
-        out.label("pin-grid")
-    if len(r.excore.get("sfp", [])) if hasattr(r, "excore") and isinstance(r.excore, dict) else False:
-        out.label("sfp-occupied")
-
+    prog, split = case["program"], case.get("split")
+    phases = [prog] if split is None else [prog[: split % (len(prog) + 1)], prog[split % (len(prog) + 1):]]
     fn = "c04_%d.h5" % os.getpid()  # relative: created in the fast path, moved to the working directory on close
     fn2 = fn.replace(".h5", "_b.h5")
     for f in (fn, fn2):
         if os.path.exists(f):
             os.remove(f)
-    cyc, node = int(r.p.cycle), int(r.p.timeNode)
     db = Database(fn, "w")
     db.open()
     try:
-        db.writeToDB(r)
-        r.sort()
-        a = _normalise(_observe(r))
-        r1 = db.load(cyc, node, cs=cs, bp=bp)
-        b = _normalise(_observe(r1))
-        _align_unlocated(a, b)
-        d = ob.diff(a, b, limit=6)
-        for x in d:
-            out.fail("roundtrip/" + _sig_of(x), "loaded != original: " + x)
-        if not d:
+        # one or two snapshots through the same open database; each is observed when it is written
+        snaps = []
+        for phase in phases:
+            apply_program(cs, r, phase, out, counts)
+            if snaps and (int(r.p.cycle), int(r.p.timeNode)) in [(c_, n_) for c_, n_, _ in snaps]:
+                r.p.timeNode = max(n_ for _, n_, _ in snaps) + 1
+            db.writeToDB(r)
+            r.sort()
+            snaps.append((int(r.p.cycle), int(r.p.timeNode), _normalise(_observe(r))))
+        _labels(out, spec, r, counts, len(snaps))
+        clean = True
+        r1 = None
+        for i, (cyc, node, a) in enumerate(snaps):
+            r1 = db.load(cyc, node, cs=cs, bp=bp)
+            b = _normalise(_observe(r1))
+            _align_unlocated(a, b)
+            d = ob.diff(a, b, limit=6)
+            for x in d:
+                out.fail(("roundtrip/" if len(snaps) == 1 or i == len(snaps) - 1 else "roundtrip-earlier-snapshot/") + _sig_of(x),
+                         "loaded != original (snapshot %d of %d): %s" % (i + 1, len(snaps), x))
+            clean = clean and not d
+        if clean:
             r2 = db.load(cyc, node, cs=cs, bp=bp)
             c = _normalise(_observe(r2))
             b = _normalise(_observe(r1))
@@ -405,6 +420,16 @@ def execute(case):
             if os.path.exists(f):
                 os.remove(f)
     return out
+
+
+def _labels(out, spec, r, counts, nsnap):
+    kinds = {k.split(":")[0] for k in counts}
+    out.nontrivial = len(kinds) >= 2 or any(d["pinGrid"] for d in spec["designs"]) or spec["geom"] == "thetarz"
+    out.label("geom:" + spec["geom"], "sym:" + spec["symmetry"].split()[0], "snapshots:%d" % nsnap, *["op:" + k for k in sorted(counts)])
+    if any(d["pinGrid"] for d in spec["designs"]):
+        out.label("pin-grid")
+    if len(r.excore.get("sfp", [])) if hasattr(r, "excore") and isinstance(r.excore, dict) else False:
+        out.label("sfp-occupied")
 
 
 def nodefault_strategy(tier):
@@ -459,9 +484,11 @@ def nodefault_execute(case):
 PARTS = [
     Part("roundtrip", execute, strategy=strategy, budget={"quick": 320, "thorough": 30000}, procs={"quick": 8, "thorough": 16},
          rule="Hypothesis: blueprint-built reactor (hex third/full, flats/corners up, Cartesian full/quarter, theta-R-Z, pin lattices, SFP) + program "
-              "of <= 8 state changes (typed parameter assignments at core/assembly/block/component level, un-setting, temperature, "
-              "composition, swaps, rotations, discharge to SFP, third->full conversion, time) then writeToDB -> load; oracle observe() "
-              "equality original vs loaded, load twice, load(write(load)); non-trivial = >= 2 kinds of state change or a pin lattice"),
+              "of <= 8 state changes (typed parameter assignments at core/assembly/block/component level incl. NumPy scalars of narrow "
+              "integer/float types, un-setting, temperature, composition, swaps, rotations, discharge to SFP, third->full conversion, "
+              "time) then writeToDB -> load; in half of the cases the program is split and two snapshots are written through the same "
+              "open database and both loaded back; oracle observe() equality original (as observed when written) vs loaded, load "
+              "twice, load(write(load)); non-trivial = >= 2 kinds of state change or a pin lattice"),
     Part("nodefault_partial", nodefault_execute, strategy=nodefault_strategy, budget={"quick": 24, "thorough": 400}, procs={"quick": 1, "thorough": 4},
          rule="a persistent component parameter without default (buRate, zrFrac) assigned on one or on all components of a class, "
               "then write -> load; the value must come back; non-trivial = assigned on a strict subset (the known-finding shape)"),
